@@ -31,7 +31,7 @@ def django_tables():
     if not _TABLES_READY:
         from django.db import connection
         with connection.schema_editor() as ed:
-            for m in (models.Item, models.Tag, models.Parent, models.Child):
+            for m in (models.Item, models.Tag, models.Parent, models.Child, models.Note):
                 ed.create_model(m)
         _TABLES_READY = True
     return models
@@ -39,6 +39,7 @@ def django_tables():
 
 def django_clear():
     models = django_tables()
+    models.Note.objects.all().delete()
     models.Child.objects.all().delete()
     models.Parent.tags.through.objects.all().delete()
     models.Parent.objects.all().delete()
